@@ -327,24 +327,24 @@ impl<E: Effect, R: CommandReceiver<E>, S: EventSender<E>> Worker<E, R, S> {
                 captures,
                 argument,
             } => {
-                // Extract heap data from all captures and argument
-                let mut all_heap_data = Vec::new();
-                let mut extracted_captures = Vec::new();
-
-                for capture in captures {
-                    let (extracted, mut heap) = self
-                        .executor
-                        .extract_heap_data(&capture)
-                        .map_err(|e| EnvironmentError::HeapData(format!("{:?}", e)))?;
-                    extracted_captures.push(extracted);
-                    all_heap_data.append(&mut heap);
-                }
-
-                let (extracted_argument, mut arg_heap) = self
+                // Extract heap data from all captures and the argument together, so that their
+                // compact heap indices share one index space (the receiving side injects the
+                // single `heap` list once for all of them).
+                let captures_count = captures.len();
+                let mut all_values = captures;
+                all_values.push(argument);
+                let (extracted, all_heap_data) = self
                     .executor
-                    .extract_heap_data(&argument)
+                    .extract_heap_data(&Value::tuple(quiver_core::types::NIL, all_values))
                     .map_err(|e| EnvironmentError::HeapData(format!("{:?}", e)))?;
-                all_heap_data.append(&mut arg_heap);
+                let Value::Tuple(_, extracted_values) = extracted else {
+                    unreachable!("extract_heap_data preserves the value's shape")
+                };
+                let mut extracted_captures = (*extracted_values).clone();
+                let extracted_argument = extracted_captures
+                    .pop()
+                    .expect("argument was appended after the captures");
+                debug_assert_eq!(extracted_captures.len(), captures_count);
 
                 self.sender.send(Event::SpawnAction {
                     caller,
